@@ -71,8 +71,15 @@ def drive(ctx, binary, behs, variants, trace_every, only_variant=-1):
 
 
 def report(ctx, behs, recs):
+    per, total = {}, 0
     for r in recs:
         if not r["ok"]:
+            # a drastic deviation fails thousands of programs: keep two replays per signature, 40 in all
+            sig = signature(r)
+            per[sig] = per.get(sig, 0) + 1
+            if per[sig] > 2 or total >= 40:
+                continue
+            total += 1
             ctx.violation(signature(r), "%s (variant %d): %s; expected %s, got %s; rules %s" % (
                 r["field"], r["variant"], r["diff"], r.get("exp"), (r.get("got") or "")[:200], r.get("text")),
                 {"beh": behs[r["i"]], "variant": r["variant"], "text": r.get("text")})
